@@ -11,10 +11,12 @@ func init() {
 		Level:       levelOther,
 		Explanation: "Driver-generated: on every run the builder method family of /repo/internal/cmds is enumerated from the package's types (≈7.7k exported value-receiver methods on the generated builder types, 575 root constructors) and one harness case per method is synthesised and executed symbolically: the receiver carries an already built prefix [P0,P1], symbolic flag bits cf and no slot checking; string parameters are symbolic 1-byte strings (variadics get two), integers/floats/durations/times are concrete boundary samples. Step relation checked for every method: the result shares the receiver's command; the prefix is unchanged; the appended part is the method's own constant tokens followed by exactly the caller's arguments in call order, rendered as strings (base-10 integers incl. MinInt64 and MaxUint64, shortest round-trip floats, EX/EXAT in seconds and PX/PXAT in milliseconds); flags are preserved. By induction over builder paths this gives 'argv = command tokens followed by the caller's arguments in call order' for every completion path without enumerating paths. Methods with parameter types outside {string, int64, uint64, float64, bool, Duration, Time and their variadics} are counted as skipped in evidence.",
 		Assumptions: []string{"numeric parameters are concrete samples (symbolic rendering of numbers through strconv is not explored); bool parameters are only checked for flag/prefix preservation"},
-		Outside:     []string{"the second half of the statement — a command is never modified or recycled before it has been completely written, also when the caller abandons the call (sync.Pool recycling under cancellation) — is not covered by this check", "root constructors' command names against the Redis command table (only upper-case constant tokens are required)", "slot bookkeeping of key parameters (C18)"},
+		Outside:     []string{"for the second half of the statement (a command is never modified or recycled before it has been completely written, also when the caller abandons the call) only one call shape is explored: a client-side-caching MGET through pipe.DoCache (the one place where the pipe builds and recycles its own pooled commands), abandoned by a context cancelled at any scheduling point within the delay budget, followed by another caller's command built from the same pool; the scripted server checks every command that arrives. PutCompleted calls in client.go/cluster.go/sentinel.go on the clean-reply path are not driven under cancellation", "root constructors' command names against the Redis command table (only upper-case constant tokens are required)", "slot bookkeeping of key parameters (C18)"},
 		Bounds:      map[string]any{"quick": "every generated method once (one path per method)", "thorough": "same"},
 		specs: func(tier string) []specRef {
-			return []specRef{genSpec(cmdsPkg, "VerifC33_steps", "step")}
+			return []specRef{genSpec(cmdsPkg, "VerifC33_steps", "step"),
+				// second sentence: abandoned calls (pipe-built client-side-caching MGET batch, pooled commands)
+				hsd(rootPkg, "VerifC33_abandon", nil, q(tier, 2, 3), 3000000, 3000, "abandoned", "completed", "done")}
 		},
 	}
 	checks["C32"] = &checkDef{
